@@ -88,6 +88,23 @@ def run(e: Engine, rep: Report):
     rep.errors += sub.errors
     rep.evaluations += sub.evaluations
     rep.functions |= sub.functions
+    rep.rule('R2.11', 'the edge hands messages to the queue it was given: '
+             'Edge.queue is bound to the constructor argument itself - no '
+             'stand-in chosen by the truthiness of the argument (a Queue is '
+             'a Greenlet: false until started, and again once it has '
+             'finished)')
+    r211(e, rep)
+    sub = Report(rep.prop, rep.tier, rep.repo)
+    _c11.n18(e, sub, 'R2.12')
+    rep.rule('R2.12', '= C11-N18: a relay failure never carries a positive '
+             'reply of the peer (the edges answer with the reply of the '
+             'failure: a wrapped 2xx comes out as an acknowledgement)')
+    for o in sub.obls:
+        rep.add('R2.12', o.where, o.text, o.status, o.what, o.loc, o.witness,
+                o.nontrivial, o.reason)
+    rep.errors += sub.errors
+    rep.evaluations += sub.evaluations
+    rep.functions |= sub.functions
     rep.floor('R2.1', 4, 'reply decision sites')
 
 
@@ -1196,6 +1213,50 @@ def r28(e: Engine, rep: Report):
 
 
 # -------------------------------------------------------------------- R2.9
+def r211(e: Engine, rep: Report):
+    n = 0
+    for m in e.p.modules.values():
+        if not m.name.startswith('slimta.edge'):
+            continue
+        for f in [f for f in e.p.functions.values() if f.module is m and
+                  f.cls is not None]:
+            for x in walk_own(f.node):
+                if not (isinstance(x, ast.Assign) and any(
+                        isinstance(t, ast.Attribute) and t.attr == 'queue'
+                        and isinstance(t.value, ast.Name) and
+                        t.value.id == 'self' for t in x.targets)):
+                    continue
+                n += 1
+                rep.evaluations += 1
+                rep.functions.add(f.qname)
+                v = x.value
+
+                def plain(v):
+                    # the argument, or `arg if arg is [not] None else ...`
+                    if isinstance(v, ast.Name) and v.id in f.params:
+                        return True
+                    if isinstance(v, ast.IfExp) and \
+                            isinstance(v.test, ast.Compare) and \
+                            len(v.test.ops) == 1 and isinstance(
+                                v.test.ops[0], (ast.Is, ast.IsNot)) and \
+                            isinstance(v.test.comparators[0], ast.Constant) \
+                            and v.test.comparators[0].value is None:
+                        return plain(v.body) or plain(v.orelse)
+                    return False
+                rep.check(plain(v), 'R2.11', f.qname,
+                          '`%s`' % ' '.join(ast.unparse(x).split())[:60],
+                          'the edge does not keep the queue it was given: '
+                          '`%s` replaces it depending on its truth value - '
+                          'a Queue that has not been started (or has no '
+                          'relay and ended) is false, its stand-in then '
+                          'acknowledges every message with 250 / 204 '
+                          'although nothing was stored' % ' '.join(
+                              ast.unparse(v).split())[:50], loc=f.loc(x),
+                          reason='bound to the parameter itself')
+    if n < 1:
+        rep.error('anchor vanished: assignment of Edge.queue')
+
+
 def r29(e: Engine, rep: Report):
     ctx = e.method_ctx(QUEUE, '_pool_imap')
     g = e.build(ctx, raises=lambda b, n, r: set(),
